@@ -1,0 +1,36 @@
+//go:build verif
+
+// Contracts for package spy, checked by /verif (govc). Comment-only file: with the
+// verif tag off it is not part of the build, with it on it adds only this package clause.
+package spy
+
+// ---------------------------------------------------------------- spy fan-out (C20)
+
+//@ pred filterHit(sub *subscription, v *vaa.VAA, i int) = sub.filters[i].chainId == v.EmitterChain && sub.filters[i].emitterAddr == v.EmitterAddress
+// matches: no filters, or some filter names the VAA's emitter chain and address
+//@ pred matches(sub *subscription, v *vaa.VAA) = len(sub.filters) == 0 || (v != nil && (exists i in 0..len(sub.filters) :: filterHit(sub, v, i)))
+
+//@ func decodeEmitterAddr(hexAddr string) (a vaa.Address, err error)
+//@   props C20
+//@   ensures [ok-iff] err == nil <==> hexok(hexAddr) && len(unhex(hexAddr)) == 32
+//@   ensures [value] err == nil ==> (forall i in 0..32 :: at32(a, i) == unhex(hexAddr)[i])
+//@   nopanic
+
+// Publish: per subscriber (one loop iteration; old() = head of the iteration) the message
+// is sent iff the subscriber matches, the bytes are the published ones, no other channel is
+// touched; and every send made while the subscription mutex is held must be non-blocking.
+//@ func (s *spyServer) Publish(vaaBytes []byte) (err error)
+//@   props C20
+//@   requires s != nil && s.subs != nil && (forall k in dom(s.subs) :: s.subs[k] != nil)
+//@   nonblocking
+//@   ensures [error-only-if-undecodable] err != nil ==> !vaa.accepts(vaaBytes)
+//@   modifies chan, fresh vaa.VAA.*, fresh vaa.Signature.*, fresh lib:bytes.Reader.s, fresh lib:bytes.Reader.i
+//@   replay spy_Publish.go.tmpl
+//@   loop [range s.subs]:
+//@     iter-ensures [delivered-iff-matches] (nsent(sub.ch) > old(nsent(sub.ch))) <==> matches(sub, v)
+//@     iter-ensures [bytes] nsent(sub.ch) > old(nsent(sub.ch)) ==> lastsent(sub.ch).vaaBytes == vaaBytes
+//@     iter-ensures [no-other-subscriber] unchangedExcept("chan", sub.ch)
+//@   loop [range sub.filters]:
+//@     invariant [count] nsent(sub.ch) >= atEntry(nsent(sub.ch)) && ((nsent(sub.ch) > atEntry(nsent(sub.ch))) <==> (exists i in 0..$i :: filterHit(sub, v, i)))
+//@     invariant [bytes] nsent(sub.ch) > atEntry(nsent(sub.ch)) ==> lastsent(sub.ch).vaaBytes == vaaBytes
+//@     invariant [no-other-subscriber] unchangedExceptSinceEntry("chan", sub.ch)
